@@ -1794,4 +1794,49 @@ theorem consumePos_spec (ws : Nat → Bool) (parse : List Nat → Except ε α) 
           | true => simp only [if_true]; exact ⟨i1, tail_ok⟩
           | false => simp
 
+/-! ### Part K: the separated lines re-join to the content -/
+
+theorem joinWith_consHead (sep : List Nat) (c : Nat) (x : List (List Nat)) (hx : x ≠ []) :
+    joinWith sep (consHead c x) = c :: joinWith sep x := by
+  match x, hx with
+  | [l], _ => simp [consHead, joinWith]
+  | l :: l' :: ls, _ => simp [consHead, joinWith]
+
+theorem sepLines_ne_nil (c : List Nat) : sepLines c ≠ [] := by
+  induction c using sepLines.induct with
+  | case1 => simp [sepLines]
+  | case2 => simp [sepLines]
+  | case3 c h => simp [sepLines, h]
+  | case4 c d cs h _ => simp [sepLines, h]
+  | case5 d cs _ _ => simp [sepLines]
+  | case6 c d cs h1 h2 _ => simp [sepLines, h1, h2]; exact consHead_ne_nil _ _
+
+/-- nothing lost, nothing invented: for a content without CR the LF-separated lines, joined by LF
+    again, are the content -/
+theorem sepLines_rejoin (c : List Nat) (h : ∀ x ∈ c, x ≠ 13) : joinWith [10] (sepLines c) = c := by
+  induction c using sepLines.induct with
+  | case1 => simp [sepLines, joinWith]
+  | case2 => simp [sepLines, joinWith]
+  | case3 c hc => simp [sepLines, hc, joinWith]
+  | case4 c d cs hcd _ => exact absurd hcd.1 (h c (by simp))
+  | case5 d cs _ ih =>
+    have ih := ih (fun x hx => h x (by simp [hx]))
+    cases hs : sepLines (d :: cs) with
+    | nil => exact absurd hs (sepLines_ne_nil _)
+    | cons l ls =>
+      rw [hs] at ih
+      simp [sepLines, hs, joinWith, ih]
+  | case6 c d cs hcd h10 ih =>
+    have ih := ih (fun x hx => h x (by simp [hx]))
+    simp only [sepLines, hcd, h10, if_false]
+    rw [joinWith_consHead _ _ _ (sepLines_ne_nil _), ih]
+
+theorem noLoneCR_of_noCR (c : List Nat) (h : ∀ x ∈ c, x ≠ 13) : noLoneCR c = true := by
+  induction c using noLoneCR.induct with
+  | case1 => rfl
+  | case2 c => simpa [noLoneCR] using h c (by simp)
+  | case3 c d cs ih =>
+    have h1 : c ≠ 13 := h c (by simp)
+    simp [noLoneCR, h1, ih (fun x hx => h x (by simp [hx]))]
+
 end C19
